@@ -561,20 +561,9 @@ func checkSetProtocol(r *Reporter, p *Prog) {
 			continue
 		}
 		nAdds := 0
-		ast.Inspect(fd.Body, func(n ast.Node) bool {
-			lit, ok := n.(*ast.FuncLit)
-			if !ok {
-				// a callback produced by a closure factory and handed over directly
-				// (`Range(s.collector(result))`): the literal the factory returns
-				if c, isCall := n.(*ast.CallExpr); isCall {
-					if _, isSig := info.TypeOf(c).Underlying().(*types.Signature); isSig {
-						lit, _ = closureFactory(p, info, c)
-					}
-				}
-				if lit == nil {
-					return true
-				}
-			}
+		// the callbacks of the operation: literals, literals out of a closure factory
+		// (`Range(s.collector(result))`), or methods of a recorder struct used as method values
+		for _, lit := range callbacksIn(p, info, fd.Body) {
 			lf := newFuncCFG(p, info, lit.Body, key+"$callback")
 			// is e the callback's own element parameter, possibly handed down to a helper or to a
 			// closure that came out of a factory
@@ -590,10 +579,8 @@ func checkSetProtocol(r *Reporter, p *Prog) {
 				return false
 			}
 			lparams := map[types.Object]bool{}
-			for _, fl := range lit.Type.Params.List {
-				for _, nm := range fl.Names {
-					lparams[info.Defs[nm]] = true
-				}
+			for _, po := range lit.Params(info) {
+				lparams[po] = true
 			}
 			// what a branch atom stands for: result #idx of a call - written as the call itself,
 			// as lo.Return2(call), or as a variable bound to one of the call's results
@@ -677,8 +664,9 @@ func checkSetProtocol(r *Reporter, p *Prog) {
 				if !found || !isElem(c.Args[0], cpt, lparams) {
 					return false
 				}
-				o := objOfIdent(info, se.X)
-				return o != nil && !(o.Pos() >= lit.Pos() && o.Pos() <= lit.End())
+				// the result set: state outside the callback (a captured variable, or a field of the receiver
+				// that carries the captured state)
+				return lit.Outside(info, rootObj(info, se.X))
 			}) {
 				nAdds++
 				if w, only := lf.OnlyThroughEdges(pt, lic); only {
@@ -687,8 +675,7 @@ func checkSetProtocol(r *Reporter, p *Prog) {
 					r.Fail("set/exact-diff", key, lf.PosOf(pt), "an element is reported as changed without the underlying operation having reported a membership change", w...)
 				}
 			}
-			return false
-		})
+		}
 		if nAdds < row.minAdd {
 			r.Fail("set/exact-diff", key, p.posStr(fd.Pos()), fmt.Sprintf("expected %d result-set insertion(s) inside callbacks, found %d", row.minAdd, nAdds))
 		}
